@@ -97,6 +97,32 @@ class Report(object):
                 keep.append(f)
         self.failures = keep
 
+    def run_as(self, mapping, fn, *args, **kw):
+        """Run a rule function of another property and report what it checks under this property's rule ids (mapping: foreign
+        rule id -> own rule id): an obligation two properties rest on is decided once and owned by both."""
+        nf, ns, nfl, nd = len(self.failures), len(self.samples), len(self.floors), len(self.deficits)
+        before = dict((r, len(k)) for r, k in self.obligations.items())
+        fn(self, *args, **kw)
+        for old, new in mapping.items():
+            if old in self.obligations and old != new:
+                keys = self.obligations[old]
+                moved = keys[before.get(old, 0):]
+                del keys[before.get(old, 0):]
+                if not keys:
+                    del self.obligations[old]
+                self.obligations.setdefault(new, []).extend(moved)
+            for f_ in self.failures[nf:]:
+                if f_.rule == old:
+                    f_.rule = new
+            for s_ in self.samples[ns:]:
+                if s_.get('rule') == old:
+                    s_['rule'] = new
+            for s_ in self.suppressed:
+                if s_.get('rule') == old:
+                    s_['rule'] = new
+            self.floors[nfl:] = [((r.replace(old, new, 1) if r.startswith(old) else r), a_, b_) for r, a_, b_ in self.floors[nfl:]]
+            self.deficits[nd:] = [d.replace('rule ' + old, 'rule ' + new, 1) for d in self.deficits[nd:]]
+
     def floor(self, rule, found, floor):
         self.floors.append((rule, found, floor))
         if found < floor:
